@@ -295,3 +295,4 @@ Print Assumptions C15_destructure_no_duplicates.
 Print Assumptions C15_underscore_dropped_immediately.
 Print Assumptions C15_bind_moves_whole_value.
 Print Assumptions C15_all_bind_in_order.
+Print Assumptions C15_consumer_exactly_once_satisfiable.
